@@ -65,6 +65,26 @@ def award(n, contrib, pooled, live, hands, nboards, ntypes, divmod_, rake=None, 
     return win, info
 
 
+def shown_cards(ops, i):
+    """cards player i has face up according to the log"""
+    out = []
+    for o in ops:
+        nm = type(o).__name__
+        if getattr(o, 'player_index', None) != i:
+            continue
+        if nm == 'HoleDealing':
+            out += [repr(c) for c, up in zip(o.cards, o.statuses) if up and repr(c) != '??']
+        elif nm == 'StandingPatOrDiscarding':
+            for c in o.cards:
+                if repr(c) in out:
+                    out.remove(repr(c))
+        elif nm == 'HoleCardsShowingOrMucking':
+            for c in o.hole_cards:
+                if repr(c) != '??' and '?' not in repr(c) and repr(c) not in out:
+                    out.append(repr(c))
+    return out
+
+
 def ref_divmod(a, d):
     """The documented default split: whole chips share as builtin divmod does (remainder = odd chips), any other chip type is
     divided exactly (nothing left over beyond rounding)."""
